@@ -500,8 +500,9 @@ def run(ctx):
         nl = rng.choice([1, 1, 2, 3])
         langs = [gen_spans(rng, sorted_only=(rng.random() < 0.6)) for _ in range(nl)]
         sami_cases.append(langs)
-    reqs_m, reqs_ok, sjobs = [], [], []
-    for langs in sami_cases:
+    reqs_m, reqs_ok, sjobs, reqs_doc = [], [], [], []
+    for si, langs in enumerate(sami_cases):
+        reqs_doc.append((206, [wire_caps(sp) for sp in langs]))
         cs, _ = build_set(langs, False)
         mk = rng.choice([lambda: SAMIWriter(), lambda: SAMIWriter(),
                          lambda: SAMIWriter(relativize=False, fit_to_screen=False, video_width=640, video_height=360)])
@@ -511,13 +512,30 @@ def run(ctx):
                 o = obs.v.get(LANGS[li], [])
             else:
                 o = obs
-            sjobs.append((langs, li, spans, o))
+            sjobs.append((langs, li, spans, o, si))
             reqs_m.append((202, wire_caps(spans)))
             reqs_ok.append((203, [wire_caps(spans), o if not isinstance(o, Err) else []]))
     models = oracle_batch(reqs_m)
     oks = oracle_batch(reqs_ok)
-    for (langs, li, spans, o), m, ok in zip(sjobs, models, oks):
+    docs = []
+    for i in range(0, len(reqs_doc), 300):
+        docs += oracle_batch(reqs_doc[i:i + 300])
+    for (langs, li, spans, o, si), m, ok in zip(sjobs, models, oks):
         res["evaluations"] += 1
+        # the DOCUMENT model (model/Langs.v sami_write over all languages of the set, request 206): where the syncs of
+        # every language stand in the body - compared for EVERY set, timeline or not
+        dm = docs[si]
+        if dm != BAD_WIRE and not isinstance(o, Err) and all(re.fullmatch(r"-?[0-9]+", x[0]) for x in o):
+            bump_key = "sami_languages_compared_with_the_document_model"
+            dist[bump_key] = dist.get(bump_key, 0) + 1
+            if [[int(x[0]), bool(x[1])] for x in o] != [[x[0], x[1] == 1] for x in dm[li]]:
+                res["disagreements"].append({"writer": "sami", "what": "the paragraphs of language %d in the written "
+                                             "document differ from the document model (placement of syncs)" % li,
+                                             "input": [[list(map(repr, se)) for se in sp] for sp in langs],
+                                             "impl": o, "model": dm[li]})
+            elif ok != 1 and li > 0:
+                k2 = "sami_later_language_orders_predicted_by_the_document_model"
+                dist[k2] = dist.get(k2, 0) + 1
         dist["sami"] = dist.get("sami", 0) + 1
         touching = sum(1 for a, b in zip(spans, spans[1:]) if exact(a[1]) // 1000 == exact(b[0]) // 1000)
         if len(spans) >= 2:
